@@ -91,6 +91,3 @@ End Stores.
 (** what a faithful fetch of [r] shows *)
 Definition fetched_of (r : recording) : fetched :=
   Fetched (VStr (r_id r)) (canon (VDict (r_data r))) (canon (VDict (r_meta r))).
-
-Definition rec_wf (r : recording) : bool :=
-  str_ok (r_id r) && wf (VDict (r_data r)) && wf (VDict (r_meta r)).
